@@ -1136,6 +1136,12 @@ func callBuiltin(caller *frame, fn *ssa.Builtin, args []value) value {
 
 	case "ssa:deferstack":
 		return &caller.defers
+
+	case "Sizeof":
+		return uintptr(caller.i.sizes.Sizeof(fn.Type().(*types.Signature).Params().At(0).Type()))
+
+	case "Alignof":
+		return uintptr(caller.i.sizes.Alignof(fn.Type().(*types.Signature).Params().At(0).Type()))
 	}
 
 	panic("unknown built-in: " + fn.Name())
